@@ -483,7 +483,19 @@ def _defined_by_bin(b, l, op, const):
     return False
 
 
+def r_errors_reach_the_caller(cx):
+    """an error met while locating, opening or parsing (a detected alteration) is never turned into 'absent' / a
+    default: it must reach the caller of check() / of the accessor (= C06-R7, evaluated under this property)"""
+    import c06
+    before = len(cx.obs)
+    c06.r7_errors_not_swallowed(cx)
+    for o in cx.obs[before:]:
+        o.key = "R5/" + o.key.split("/", 1)[1]
+        o.rule = "R5"
+
+
 RULES = [
+    ("R5", r_errors_reach_the_caller, 2),
     ("R1", r1_hash_after_writes, 18),
     ("R2", r2_check_impl, 18),
     ("R3", r3_container_check, 17),
